@@ -248,9 +248,9 @@ func (c *c04state) scanImage(img []byte, when string) {
 		if p.secret {
 			set = "secret"
 		}
-		r.fail(fmt.Sprintf("clear-text-%s-in-file:kind=%s:op=%s", set, p.kind, r.opKind),
-			"the database image at %s contains %s (%s, %d bytes) in clear at file offset %d (page %d)",
-			when, p.what, p.kind, len(p.b), off, off/4096)
+		r.fail(fmt.Sprintf("clear-text-%s-in-file:kind=%s", set, p.kind),
+			"the database image at %s (operation %d, %s) contains %s (%s, %d bytes) in clear at file offset %d (page %d)",
+			when, r.opIdx, r.opKind, p.what, p.kind, len(p.b), off, off/4096)
 	}
 }
 
@@ -291,7 +291,7 @@ func (c *c04state) wrongKeyPass(img []byte, when string) {
 			r.env.Count("c04.public-key-fields")
 			if i, _ := c.findSecret(pt); i >= 0 {
 				p := c.pats[i]
-				r.fail(fmt.Sprintf("secret-under-public-key:kind=%s:op=%s", p.kind, r.opKind),
+				r.fail(fmt.Sprintf("secret-under-public-key:kind=%s", p.kind),
 					"the database image at %s stores %s (%s) encrypted under the PUBLIC crypto key (bucket path %s): readable with the public passphrase alone",
 					when, p.what, p.kind, where)
 				return false
